@@ -12,7 +12,7 @@ sel = sys.argv[1] if len(sys.argv) > 1 else ""
 rows = []
 for name in sorted(os.listdir("/verif/seeded")):
     d = os.path.join("/verif/seeded", name)
-    if not os.path.isdir(d) or sel not in name:
+    if not os.path.isdir(d) or sel not in name or name.startswith("_"):
         continue
     meta = json.load(open(os.path.join(d, "meta.json")))
     w = f"/tmp/mx_{name}"
